@@ -1166,6 +1166,15 @@ func (m *Monitors) onEDS(inv *simapi.Invocation, out kit.Outcome) {
 			d := map[string]any{"rs": pre.Namespace + "/" + pre.Name, "status-as-read": fmt.Sprintf("desired=%d current=%d ready=%d available=%d", asRead.Status.Desired, asRead.Status.Current, asRead.Status.Ready, asRead.Status.Available)}
 			if pre.Namespace == v.EDS.Namespace {
 				rsDeletes = append(rsDeletes, pre.Name)
+			} else if c.Applied() {
+				// a replica set of another namespace: if, by the store, it is the active one or the one matching the
+				// template of the ExtendedDaemonSet it belongs to, a replica set in use has been deleted - whoever's
+				// reconcile did it
+				if owner := kit.GetEDS(m.w.S, pre.Namespace, pre.Labels[v1.ExtendedDaemonSetNameLabelKey]); owner != nil {
+					if owner.Status.ActiveReplicaSet == pre.Name || kit.MarkerOfTemplate(&owner.Spec.Template) == kit.MarkerOfTemplate(&pre.Spec.Template) {
+						m.viol("C13", "C13.never-delete-in-use", map[string]string{"which": "of-a-namesake-in-another-namespace"}, inv, map[string]any{"rs": pre.Namespace + "/" + pre.Name})
+					}
+				}
 			}
 			if asRead.Status.Desired+asRead.Status.Current+asRead.Status.Ready+asRead.Status.Available != 0 {
 				m.viol("C13", "C13.delete-only-empty", nil, inv, d)
